@@ -309,7 +309,7 @@ UNIT = Unit(
              "`f(.., Box::new(closure))` the block `{ let cl = closure; let r = f(.., cl); r }` (the closure is built before instead of after the other arguments are evaluated)",
              "compile_match_arms_to_anf is a stub with an ASSUMED contract here (k called once on an EMatch over the given scrutinee whose arms / default are normal forms "
              "of the source arms, in order)",
-             "termination of anf / anf_imm / anf_list is not proved (exec_allows_no_decreases_clause): the recursion goes through closures and slices",
+             "termination of anf / anf_imm / anf_list IS proved inside this unit (decreases e / e / es@ with ranks 0 / 1 / 2; recursive calls inside closure bodies are checked against the enclosing function's measure); the cycle anf -> compile_match_arms_to_anf -> anf is cut at the stub and not covered",
              "the spec function imm_direct (which operands anf_imm hands on without a let, and as what) is DERIVED from anf_imm's direct arms `PATTERN => k(IMM)` on every run; "
              "the property-level demand on it is the lemma imm_direct_sound",
              "the `ty` stored on a generated let (AExpr::get_ty) and freshness of the generated names (C19, U-GENSYM) are not part of this contract",
@@ -328,19 +328,19 @@ UNIT = Unit(
            contract="ensures r == lift_ty(*self),", obligation="get_ty returns the carried type"),
         Fn(file=A, name="compile_match_arms_to_anf", ret="r", contract_only=True, rules=RULES + [("cps", lambda s: {"after": ""} if s.kind != "closure" else {"types": ["CExpr"], "ensures": "true"})],
            contract="requires forall|c: CExpr| k.requires((c,)),\n ensures match_post(scrutinee, arms@, default, body_ty, k, r),"),
-        Fn(file=A, name="anf_imm", ret="r", rules=RULES + [("cps", annot_imm)], attrs="#[verifier::exec_allows_no_decreases_clause]",
+        Fn(file=A, name="anf_imm", ret="r", rules=RULES + [("cps", annot_imm)],
            rewrites=[VC],
            ghost=[("@entry", "", "let ghost e0 = e;")],
            obligation="an operand that is a variable or literal is handed to k as it is; any other operand is normalised and its final step bound, LAST, to a fresh name that k gets",
-           contract="requires forall|c: ImmExpr| k.requires((c,)),\n ensures imm_post(e, k, r),"),
-        Fn(file=A, name="anf_list", ret="r", rules=RULES + [("cps", annot_list)], attrs="#[verifier::exec_allows_no_decreases_clause]",
+           contract="requires forall|c: ImmExpr| k.requires((c,)),\n ensures imm_post(e, k, r),\n decreases e, 1int,"),
+        Fn(file=A, name="anf_list", ret="r", rules=RULES + [("cps", annot_list)],
            rewrites=[VC, ("es.is_empty()", "es.len() == 0", "*"), ("&es[1..]", "slice_subrange(es, 1, es.len())", "*")],
            obligation="the operands of a list are named left to right, each once; k gets their immediates in the same order",
-           contract="requires forall|c: Vec<ImmExpr>| k.requires((c,)),\n ensures list_post(es@, k, r),"),
-        Fn(file=A, name="anf", ret="r", rules=RULES + [("cps", annot_anf)], attrs="#[verifier::exec_allows_no_decreases_clause]",
+           contract="requires forall|c: Vec<ImmExpr>| k.requires((c,)),\n ensures list_post(es@, k, r),\n decreases es@, 2int,"),
+        Fn(file=A, name="anf", ret="r", rules=RULES + [("cps", annot_anf)],
            rewrites=[VC, (re.compile(r"\b(anf_list\(\s*anfenv,\s*gensym,\s*)&(\w+),"), r"\1\2.as_slice(),", "*"), ("args.is_empty()", "args.len() == 0", "*")],
            ghost=[("@entry", "", "let ghost e0 = e;")],
            obligation="normalising e calls k once, on e's final step, underneath the lets that evaluate e's operands in goml's evaluation order (nc)",
-           contract="requires forall|c: CExpr| k.requires((c,)),\n ensures anf_post(e, k, r),"),
+           contract="requires forall|c: CExpr| k.requires((c,)),\n ensures anf_post(e, k, r),\n decreases e, 0int,"),
     ],
 )
